@@ -850,6 +850,8 @@ impl Callers {
         match r {
             Ok(Poll::Pending) => {
                 progressed = log_len() != before;
+                // meta: the caller was polled (to quiescence) at this instant and is still pending
+                log_raw(format!("#pollend {} {} pending", c, now_ms()));
             }
             Ok(Poll::Ready(s)) => {
                 progressed = true;
